@@ -13,7 +13,7 @@ TChoices == {FirstData, SomeDir, {N, 0}} \ {{}}
 
 H(name, T, rec) == hist' = Append(hist, [name |-> name, T |-> T, rec |-> rec])
 
-GInit == Init /\ hist = <<>> /\ a \in {A1, A2}
+GInit == Init /\ hist = <<>> /\ a \in {A1, A2, A3, A5}
 GNext == \/ GetNames /\ H("getnames", {}, FALSE)
          \/ List /\ H("list", {}, FALSE)
          \/ GetInfo /\ H("getinfo", {}, FALSE)
